@@ -170,6 +170,32 @@ def h_operator(B, shape, dist, which, cplx):
             [sum(list(np.asarray(y, dtype=object).reshape(-1)), 0) * cod.scalar_dvol], rel=1e-9)
 
 
+def h_product(B, which):
+    """transform acting on ONE sub-space of a product domain whose other sub-space has total volume != 1"""
+    d0 = ift.RGSpace(2, distances=0.3)
+    d1 = ift.RGSpace(4, distances=0.5)
+    dom = ift.DomainTuple.make((d0, d1))
+    op = ift.FFTOperator(dom, space=1) if which == "fft" else ift.HartleyOperator(dom, space=1)
+    cod = op.target
+    x = B.reals("x", dom.shape)
+    y = B.values("y", cod.shape, cplx=(which == "fft"))
+    fx, fy = field_of(dom, x), field_of(cod, y)
+    t = op(fx)
+    tv = np.asarray(t.val.val, dtype=object)
+    xo = np.asarray(x, dtype=object)
+    B.close("zero mode along the transformed sub-space == integral over that sub-space (for every pixel of the other one)",
+            [tv[i, 0] for i in range(2)], [sum(list(xo[i, :]), 0) * d1.scalar_dvol for i in range(2)], rel=1e-9)
+    B.close("inverse_times(times(x)) == x", _flat(op.inverse_times(t)), list(xo.reshape(-1)), rel=1e-9)
+    yo = np.asarray(y, dtype=object)
+    B.close("times(inverse_times(y)) == y", _flat(op(op.inverse_times(fy))), list(yo.reshape(-1)), rel=1e-9)
+    lhs = sum((sc._lift(a).conjugate() * b for a, b in zip(list(yo.reshape(-1)), list(tv.reshape(-1)))), 0)
+    rhs = sum((sc._lift(a).conjugate() * b for a, b in zip(_flat(op.adjoint_times(fy)), list(xo.reshape(-1)))), 0)
+    B.close("<y, F x> == <F^dagger y, x>", [lhs], [rhs], rel=1e-9)
+    back = np.asarray(op.inverse_times(fy).val.val, dtype=object)
+    B.close("zero pixel of the back transform == integral of the harmonic field over the transformed sub-space",
+            [back[i, 0] for i in range(2)], [sum(list(yo[i, :]), 0) * cod[1].scalar_dvol for i in range(2)], rel=1e-9)
+
+
 def h_backends(B, shape, convention):
     """native (ducc path), SciPy path and the JAX implementation agree; Hartley == Re(FFT) -+ Im(FFT)"""
     import nifty.cl.ducc_dispatch as dd
@@ -236,6 +262,7 @@ def scenarios(tier, seed):
     quick = [("operator", {"shape": [4], "dist": [0.5], "which": "fft", "cplx": False}),
              ("operator", {"shape": [4], "dist": [0.5], "which": "hartley", "cplx": False}),
              ("operator", {"shape": [2, 4], "dist": [0.5, 0.25], "which": "hartley", "cplx": False}),
+             ("product", {"which": "fft"}), ("product", {"which": "hartley"}),
              ("backends", {"shape": [4], "convention": "non_canonical_hartley"}),
              ("backends", {"shape": [2, 4], "convention": "canonical_hartley"}),
              ("smoothing", {"shape": [4], "dist": [0.5], "sigma": 0.3})]
@@ -247,7 +274,7 @@ def scenarios(tier, seed):
     return quick if tier == "quick" else quick + thorough
 
 
-HARNESSES = {"operator": h_operator, "backends": h_backends, "smoothing": h_smoothing}
+HARNESSES = {"product": h_product, "operator": h_operator, "backends": h_backends, "smoothing": h_smoothing}
 OPTS = {"quick": {"max_paths": 20, "budget_s": 600, "jobs": 8, "branch_timeout_ms": 10000, "obl_timeout_ms": 60000},
         "thorough": {"max_paths": 20, "budget_s": 1800, "jobs": 8, "branch_timeout_ms": 10000, "obl_timeout_ms": 120000}}
 
